@@ -249,7 +249,7 @@ func workerMain(job string) {
 var cs = []int{0x11, 0x22, 0x33}
 var ss = []int64{1, 2, 3}
 
-const reps = 2
+var reps = 2
 
 func runEntry(idx int, scr string) []runOut {
 	var jobs []string
@@ -374,6 +374,11 @@ func main() {
 	scr := evid.Scratch("c38")
 	defer os.RemoveAll(scr)
 	es := entries()
+	if r.Thorough() {
+		cs = []int{0x11, 0x22, 0x33, 0x44, 0x7f}
+		ss = []int64{1, 2, 3, 4, 5}
+		reps = 3
+	}
 
 	if r.Replay != "" {
 		var a struct {
@@ -390,6 +395,7 @@ func main() {
 				judge(r, e, outs, &stats{})
 			}
 		}
+		os.RemoveAll(scr)
 		r.Finish(evid.Coverage{})
 	}
 
@@ -424,10 +430,11 @@ func main() {
 		"the list of key-material-producing entry points is complete (account.NewClient create path, Client.CreateAccount, account.Create, account.NewAccount, crypto.GenerateKeyPair, crypto.Sign, crypto.SignDigest, crypto.AggregateSignatures, crypto.Encrypt); math/rand importers are printed for information",
 		"nonces and ephemeral keys are observed through their public images (signature r, ephemeral public key)",
 		"the clock is varied by running twice, not shifted")
+	os.RemoveAll(scr)
 	r.Finish(evid.Coverage{
 		"evaluations":         st.runs,
 		"distinct_nontrivial": st.pairs,
-		"rule": fmt.Sprintf("%d entry points x secure-stream byte {0x11,0x22,0x33} x math/rand seed {1,2,3} x 2 repetitions, one worker subprocess per run; every pair of runs of one entry point is compared (equal stream => equal secret; different stream => different secret) and secure bytes drawn >= secret bytes; non-trivial = pairs of distinct runs in which both produced their secret", len(es)),
+		"rule": fmt.Sprintf("%d entry points x secure-stream byte %v x math/rand seed %v x %d repetitions, one worker subprocess per run; every pair of runs of one entry point is compared (equal stream => equal secret; different stream => different secret) and secure bytes drawn >= secret bytes; non-trivial = pairs of distinct runs in which both produced their secret", len(es), cs, ss, reps),
 		"exhaustive":              true,
 		"entry_points":            len(es),
 		"runs":                    st.runs,
